@@ -473,7 +473,8 @@ class Adapter:
         out["repl"] = r["repl"]
         if r["repl_other"]:
             out["repl"] = r["repl"] + [["<other>"] + p for p in r["repl_other"]]
-        if getattr(self, "focus", None) == "C11" and ev["op"] in ("Load", "Validate"):
+        if getattr(self, "focus", None) == "C11" and ev["op"] in ("Load", "Validate") and r["out"] == "ok":
+            # (which validators ran before a failure is not pinned by C11: compared on success only)
             out["vlog"] = r["vlog"]
         if getattr(self, "focus", None) == "C15" and r["out"] == "ValidationError" and (
             ev["op"] in ("SetAttr", "SetItem", "Ctor", "Load") or (ev["op"] == "COp" and ev["o"]["m"] in ("append", "extend", "iadd", "item_set"))
